@@ -1,21 +1,21 @@
-\* random walks (-simulate): up to 4 includes and 4 excludes from the 1008-entry pool
+\* random walks (-simulate) over the whole domain: any subsets, any flags, up to 4 includes and 4 excludes of any shape
 CONSTANTS
   NZ = 6
-  AxisVs <- EntVs
-  AxisPs <- EntPs
-  AxisCs = {{}, {1, 3}}
-  AxisZs = {{}, {2, 4}}
-  AxisSs <- EntSs
-  TriH2c = {"unset", "false"}
-  TriTls = {"unset", "false"}
-  TriCerts = {"unset", "true"}
-  TriTrailers = {"unset", "false"}
-  TriHdh1 = {"unset", "true"}
-  TriGet = {"unset", "false"}
-  TriLim = {"unset", "false"}
-  EntryPool <- EntryGenPool
+  AxisVs = {}
+  AxisPs = {}
+  AxisCs = {}
+  AxisZs = {}
+  AxisSs = {}
+  TriH2c = {}
+  TriTls = {}
+  TriCerts = {}
+  TriTrailers = {}
+  TriHdh1 = {}
+  TriGet = {}
+  TriLim = {}
+  EntryPool = {}
   MaxInc = 4
   MaxExc = 4
-INIT GenInit
-NEXT GenNext
+INIT WalkInit
+NEXT WalkNext
 INVARIANTS Emit
